@@ -582,6 +582,15 @@ class _CompToLoop(ast.NodeTransformer):
                 n.ctx = ast.Store()
         return [ast.copy_location(save, node), ast.copy_location(init, node), ast.copy_location(loop, node)]
 
+    def visit_Return(self, node):
+        """`return [E for t in it]`  ->  `comp_ret = [E for t in it]` (rewritten as above) ; `return comp_ret`."""
+        if not isinstance(node.value, ast.ListComp):
+            return node
+        name = f"comp_ret{getattr(self, 'count', 0) + 1}"
+        assign = ast.copy_location(ast.Assign(targets=[ast.Name(id=name, ctx=ast.Store())], value=node.value), node)
+        out = self.visit_Assign(assign)
+        out = out if isinstance(out, list) else [out]
+        return out + [ast.copy_location(ast.Return(value=ast.Name(id=name, ctx=ast.Load())), node)]
 
 def transformed_function(relpath: str, qual: str, while_specs=(), extra_havoc=None):
     """Return (code_factory, info).  code_factory(globals) -> python function object."""
